@@ -976,6 +976,18 @@ func (vc *VC) specCall(env *Env, x *SCall) (Term, types.Type) {
 			return Select(Select(vc.get(env.st, "SM_has", smHasSort), p), k), boolT
 		}
 		return Select(Select(vc.get(env.st, "SM_val", smValSort), p), k), types.NewInterfaceType(nil, nil)
+	case "recovers":
+		// recovers(): in a call-site clause - a deferred function that calls recover() is installed on the path to this call
+		// (in the function the call is made in, or in one it is inlined into): a panic of the callee would be swallowed
+		need(0)
+		f := vc.callSiteFrame
+		if f == nil {
+			f = env.fr
+		}
+		if f == nil {
+			env.fail("recovers() is only meaningful in a call-site clause")
+		}
+		return vc.recoverGuard(f), boolT
 	case "dyntype":
 		need(1)
 		v, _ := vc.specExpr(env, x.Args[0])
@@ -1246,6 +1258,15 @@ func (vc *VC) applyContract(fr *Frame, st *State, con *Contract, fn *ssa.Functio
 			vc.havocked["contract without assigns: "+con.Key()] = true
 		} else {
 			for _, a := range con.Assigns {
+				if id, ok := a.(*SIdent); ok && id.Name == "callercaptures" {
+					// the callee may run function literals the caller handed out earlier (an emit / event callback installed
+					// through a setter): every variable of the calling function that such a literal captures and writes may change
+					vc.havocCallerCaptures(fr, st)
+					if vc.top != nil && vc.top != fr {
+						vc.havocCallerCaptures(vc.top, st)
+					}
+					continue
+				}
 				vc.havocLvalue(envPre, st, a)
 			}
 		}
@@ -1598,5 +1619,47 @@ func (vc *VC) assertAxiomsFor(name string) {
 			vc.q.Assert(g)
 			vc.assumed["axiom "+ax.Label+": "+ax.Text] = true
 		}()
+	}
+}
+
+// havocCallerCaptures gives every captured, reassigned variable of the frame's function an arbitrary (well-formed) value.
+func (vc *VC) havocCallerCaptures(fr *Frame, st *State) {
+	if fr == nil || fr.fn == nil {
+		return
+	}
+	captured := map[*ssa.Alloc]bool{}
+	for _, b := range fr.fn.Blocks {
+		for _, ins := range b.Instrs {
+			if mc, ok := ins.(*ssa.MakeClosure); ok {
+				cfn, _ := mc.Fn.(*ssa.Function)
+				for k, bv := range mc.Bindings {
+					a, ok := bv.(*ssa.Alloc)
+					if !ok || cfn == nil || k >= len(cfn.FreeVars) {
+						continue
+					}
+					// only variables the literal WRITES (a variable it merely reads keeps its value)
+					if refs := cfn.FreeVars[k].Referrers(); refs != nil {
+						for _, r := range *refs {
+							if st, isStore := r.(*ssa.Store); isStore && st.Addr == cfn.FreeVars[k] {
+								captured[a] = true
+							}
+						}
+					}
+				}
+			}
+		}
+	}
+	for a := range captured {
+		if writeOnceCell(a, 0) {
+			continue
+		}
+		p, ok := fr.vals[a]
+		if !ok {
+			continue
+		}
+		et := a.Type().Underlying().(*types.Pointer).Elem()
+		v := vc.q.Fresh(fr.prefix+"$cap_"+a.Name(), vc.sortOf(et))
+		vc.q.Assert(Implies(st.reach, vc.wfAssume(st, v, et, 0)))
+		vc.store(st, p, et, v)
 	}
 }
